@@ -68,3 +68,16 @@ package server
 //@   loop 2: invariant 0 <= n && n <= 1024
 //@   loop 2: invariant peekUninitialized ==> conn.consumed == old(conn.consumed)
 //@   loop 2: invariant !peekUninitialized ==> pConn != nil && fresh(pConn) && len(pConn.buffer) == conn.consumed - old(conn.consumed)
+//
+// Port entries (property C19): "protocol/port" or "protocol/host:port", protocol tcp or udp,
+// port a decimal in 0..65535. splitcount / isuint are the uninterpreted results of strings.Split
+// and strconv.ParseUint (assumed contracts).
+//@ func ToAddr
+//@   check safety
+//@   ensures [shape] splitcount(input, "/") != 2 ==> result3 != nil
+//@   ensures [proto] result3 == nil ==> result1 == "tcp" || result1 == "udp"
+//@   ensures [port-range] result3 == nil ==> 0 <= result2 && result2 <= 65535
+//@   ensures [kind-tcp] result3 == nil && result1 == "tcp" ==> typeis(result0, *net.TCPAddr)
+//@   ensures [kind-udp] result3 == nil && result1 == "udp" ==> typeis(result0, *net.UDPAddr)
+//@   ensures [failed] result3 != nil && !typeis(result0, *net.TCPAddr) && !typeis(result0, *net.UDPAddr) ==> result0 == nil && result2 == 0
+//@   modifies nothing
